@@ -319,7 +319,15 @@ class StdioClient:
                         logger.debug(f"Sent raw message: {json_str[:100]}...")
 
                 except Exception as exc:
-                    logger.error("Error serializing message in stdin_writer: %s", exc)
+                    try:
+                        reason = str(exc)
+                    except Exception:
+                        # the text of the exception may itself be unprintable: a host's
+                        # log handler must not be given a reason to raise in here
+                        reason = type(exc).__name__
+                    logger.error(
+                        "Error serializing message in stdin_writer: %s", reason
+                    )
                     logger.debug("Failed message type: %s", type(message))
                     try:
                         logger.debug("Failed message: %s", repr(message)[:200])
